@@ -216,6 +216,12 @@ class FATDirectoryEntry:
                                               f'LFN entry of directory '
                                               f'"{self.get_short_name()}" '
                                               f'failed')
+        try:
+            str(lfn_entry)
+        except UnicodeDecodeError:
+            raise BrokenLFNEntryException(f'LFN entry of directory '
+                                          f'"{self.get_short_name()}" '
+                                          f'is not valid UTF-16')
         self.lfn_entry = lfn_entry
 
     def get_entry_size(self):
